@@ -277,3 +277,51 @@ mod tests {
         assert_eq!(arr.get(&[0, 0, 2]), Err(InterpreterError::BadSubscript));
     }
 }
+
+#[cfg(feature = "verif-hooks")]
+impl Arrays {
+    /// name:kind:dims:cell count:non-default cells, sorted by name.
+    pub(crate) fn verif_snapshot(&self) -> String {
+        use crate::verif_hooks::{enc_f64, hex};
+        let mut entries = self
+            .0
+            .iter()
+            .map(|(name, array)| {
+                let (kind, dims, count, cells) = match array {
+                    ValueArray::String(a) => (
+                        "S",
+                        &a.dimensions,
+                        a.values.len(),
+                        a.values
+                            .iter()
+                            .enumerate()
+                            .filter(|(_, v)| !v.is_empty())
+                            .map(|(i, v)| format!("{}=s{}", i, hex(v.as_bytes())))
+                            .collect::<Vec<_>>(),
+                    ),
+                    ValueArray::Number(a) => (
+                        "N",
+                        &a.dimensions,
+                        a.values.len(),
+                        a.values
+                            .iter()
+                            .enumerate()
+                            .filter(|(_, v)| v.to_bits() != 0)
+                            .map(|(i, v)| format!("{}=n{}", i, enc_f64(*v)))
+                            .collect::<Vec<_>>(),
+                    ),
+                };
+                format!(
+                    "{}:{}:{}:{}:{{{}}}",
+                    name,
+                    kind,
+                    dims.iter().map(|d| d.to_string()).collect::<Vec<_>>().join("x"),
+                    count,
+                    cells.join(",")
+                )
+            })
+            .collect::<Vec<_>>();
+        entries.sort();
+        entries.join(" ")
+    }
+}
